@@ -46,38 +46,40 @@ func c16r1(c *core.Ctx) {
 			if !core.IsCall(i, "(*bytes.Buffer).Write") && !core.IsCall(i, "(*bytes.Buffer).WriteByte") {
 				continue
 			}
-			arg := core.Args(i)[0]
-			d := "?"
-			name := func(v ssa.Value) string {
-				for _, fld := range []string{"tag", "length", "value"} {
-					if _, ok := core.FieldLoad(v, tTLVItem, fld); ok {
-						return fld
+			arg0 := core.Args(i)[0]
+			for _, arg := range writtenPieces(arg0) {
+				d := "?"
+				name := func(v ssa.Value) string {
+					for _, fld := range []string{"tag", "length", "value"} {
+						if _, ok := core.FieldLoad(v, tTLVItem, fld); ok {
+							return fld
+						}
 					}
+					return ""
 				}
-				return ""
-			}
-			if n := name(arg); n != "" {
-				d = n
-				if core.IsCall(i, "(*bytes.Buffer).WriteByte") {
-					d = n + "[1]" // one byte, by the method's type
-				}
-			} else if a := allocOf(arg); a != nil {
-				// []byte{item.x}: one-element array holding the field
-				if l, ok := knownLen(a); ok && l == 1 {
-					for _, rr := range *a.Referrers() {
-						if ia, ok := rr.(*ssa.IndexAddr); ok {
-							for _, r3 := range *ia.Referrers() {
-								if st, ok := r3.(*ssa.Store); ok {
-									if n := name(st.Val); n != "" {
-										d = n + "[1]"
+				if n := name(arg); n != "" {
+					d = n
+					if core.IsCall(i, "(*bytes.Buffer).WriteByte") || isByteTyped(arg) {
+						d = n + "[1]" // one byte, by its type
+					}
+				} else if a := allocOf(arg); a != nil {
+					// []byte{item.x}: one-element array holding the field
+					if l, ok := knownLen(a); ok && l == 1 {
+						for _, rr := range *a.Referrers() {
+							if ia, ok := rr.(*ssa.IndexAddr); ok {
+								for _, r3 := range *ia.Referrers() {
+									if st, ok := r3.(*ssa.Store); ok {
+										if n := name(st.Val); n != "" {
+											d = n + "[1]"
+										}
 									}
 								}
 							}
 						}
 					}
 				}
+				wdesc = append(wdesc, d)
 			}
-			wdesc = append(wdesc, d)
 		}
 	}
 	wantW := "[tag[1] length[1] value]"
@@ -517,4 +519,9 @@ func nextChunking(lenVal ssa.Value, buf *ssa.Alloc, value *ssa.Parameter, size i
 		}
 	}
 	return false
+}
+
+func isByteTyped(v ssa.Value) bool {
+	b, ok := v.Type().Underlying().(*types.Basic)
+	return ok && b.Kind() == types.Uint8
 }
